@@ -4,7 +4,7 @@
 
    Writer level (Crash/Fail.v): runs of Wal commands under ARBITRARY answers of write(2)/fsync.
    Pipeline level (Conc/PipeFail.v): arbitrary interleavings of committers.
-   The two plain crash statements and the two plain live statements are REFUTED for the code as it
+   The two plain crash statements and the plain live invisibility statement are REFUTED for the code as it
    is (witnesses below, confirmed on the implementation by tools/vlib/c15.py); the `_outside_known`
    theorems state what holds outside executable classes. *)
 From Coq Require Import List NArith Arith Bool.
@@ -86,22 +86,33 @@ Proof. exact failed_invisible_live_refuted. Qed.
 Theorem C15_pipeline_not_poisoned_sequential : pipeline_not_poisoned_sequential_stmt C15_SLOTS C15_PERMITS.
 Proof. exact (pipeline_not_poisoned_sequential C15_SLOTS C15_PERMITS). Qed.
 
-(* REFUTED for interleavings: failing commits return before their queue entry is drained; seven of them
-   behind one slow apply fill the eight slots, the next commit panics (commit queue overflow) *)
-Theorem C15_pipeline_not_poisoned_refuted : ~ pipeline_not_poisoned_stmt C15_SLOTS C15_PERMITS.
-Proof. exact pipeline_not_poisoned_refuted. Qed.
-
-(* pipeline_not_poisoned outside the class `early_release` (a failing commit returns while an older batch
-   is still unapplied): in every interleaving the queue never overflows and in_flight <= permits *)
-Theorem C15_pipeline_not_poisoned_outside_known : pipeline_not_poisoned_outside_known_stmt C15_SLOTS C15_PERMITS.
-Proof. exact (pipeline_not_poisoned_outside_known C15_SLOTS C15_PERMITS). Qed.
+(* pipeline_not_poisoned, the full statement, for EVERY interleaving of committers (with the generated sizes,
+   7 permits < 8 slots): the commit queue never overflows and len(queue) + free permits <= permits — every
+   queue entry is covered by a permit its committer still holds.  (Refuted until the repair of C15-N9:
+   failing commits used to return, and free their permit, before their queue entry was drained.) *)
 Example C15_permits_lt_slots : C15_PERMITS < C15_SLOTS.
 Proof. apply Nat.ltb_lt. vm_compute. reflexivity. Qed.
+Theorem C15_pipeline_not_poisoned :
+  forall t s, reach C15_SLOTS C15_PERMITS t s -> p_panic s = false /\ length (p_q s) + p_free s <= C15_PERMITS.
+Proof. exact (pipeline_not_poisoned C15_SLOTS C15_PERMITS C15_permits_lt_slots). Qed.
+
+(* regression of C15-N9: the former overflow trace (one committer applying, seven failing commits, one more)
+   is no behaviour of the model any more; its longest enabled prefix leaves 7 entries queued, no permit
+   free, no panic: the seventh failing committer gets no permit and no failed committer can return while
+   its entry is queued; after the slow apply everything drains and every commit returns its own outcome *)
+Example C15_former_overflow_trace :
+  prun 8 (p0 7) wq_trace = None /\
+  (p_panic wq_state = false /\ length (p_q wq_state) = 7 /\ p_free wq_state = 0 /\
+   pstep 8 wq_state (LAcquire 7) = None /\ pstep 8 wq_state (LFinish 1) = None) /\
+  match prun 8 wq_state wq_drain with
+  | Some s => idle 7 s = true /\ failed s 1 = true /\ failed s 6 = true /\ failed s 0 = false
+  | None => False end.
+Proof. split; [exact wq_not_a_behaviour | split; [exact wq_blocked | exact wq_drains]]. Qed.
 
 (* non-vacuity: the witnesses lie in the known classes; a fault-free run meets every hypothesis *)
 Example C15_witness_classes :
   known_used_after_failure (snd w1_run) = true /\ known_mid_emit_failure w2_results = true /\
-  known_partial_apply wl_trace = true /\ prun_ne 8 (p0 7) wq_trace = None.
+  known_partial_apply wl_trace = true.
 Proof. repeat split; vm_compute; reflexivity. Qed.
 
 Definition c15_ex_cmds : list wcmd := [CAppend [1%N; 2%N]; CSync; CAppend []; CAppend [3%N]; CFlush].
